@@ -25,12 +25,51 @@ Known genuine defects on the pinned tree (DESIGN §5), reported under fixed mech
       any exception in such a plan) is reported under this key only, no rejection variants are run for
       such plans, and all other plans keep Lagrangian field names unique across grids.
 
-Self-test (tools/mut.sh, quick tier, seed 0; "fixed" = /verif/fixes/F3.diff + F4.diff applied, every
-mutation is a patch on top of the fixed tree):
+Self-test (tools/mut.sh <patch> C17, quick tier, seed 0).  "fixed" = /verif/fixes/F3.diff + F4.diff +
+F7-proposed-on-F3F4.diff (the latter keys IO.lagrangian_fields by (grid, field)); every mutation below is
+one patch on top of that fixed tree (made from a copy of sopht/utils/io.py, never /repo itself).
 
   tree / mutation                                              verdict    mechanisms reported
   -----------------------------------------------------------  ---------  ------------------------------------
-  see the table appended at the end of this docstring (filled in after validation)
+  pinned tree, seeds 0..5 quick, seed 0 thorough                VIOLATION  only F3 key, the two F4 keys, F7 key
+  F3.diff only                                                 VIOLATION  F4 keys + F7 key (no F3 key)
+  F4.diff only                                                 VIOLATION  F3 key + F7 key (no F4 key)
+  F3+F4, seeds 0..5 quick, 0..1 thorough                       VIOLATION  F7 key only
+  fixed (F3+F4+F7 proposed), seeds 0..5 quick, 0..1 thorough   HELD       -
+  S01 loader uses array_equal instead of allclose (stricter)   HELD       - (sanity: no sub-tolerance demands)
+  M01 save: moveaxis dropped for Lagrangian vectors            VIOLATION  lagrangian-vector-dataset-shape/-content, load-raises, lagrangian-vector-not-restored
+  M02 load: Eulerian vector component index swapped            VIOLATION  eulerian-vector-not-restored
+  M03 time attribute not saved (0.0 written)                   VIOLATION  attr-time-wrong, time-not-restored
+  M04 time not loaded (returns 0.0)                            VIOLATION  time-not-restored
+  M05 time saved as float32                                    VIOLATION  attr-time-wrong, time-not-restored
+  M06 load: grid transpose dropped                             VIOLATION  load-raises, lagrangian-grid-not-restored (N == dim)
+  M07 grid transpose dropped in save AND load                  VIOLATION  lagrangian-grid-dataset-shape/-content (layout monitor only)
+  M08 allclose check on dx removed                             VIOLATION  accepted-dx-mismatch
+  M09 allclose check on origin removed                         VIOLATION  accepted-origin-mismatch
+  M10 allclose check on grid_size removed                      VIOLATION  accepted-grid-size-mismatch (unit axis -> n broadcasts)
+  M11 missing Eulerian scalar silently skipped                 VIOLATION  accepted-file-without-eulerian-scalar-dataset, accepted-extra-registered-eulerian-field
+  M12 missing Eulerian vector component silently skipped       VIOLATION  accepted-file-without-eulerian-vector-component-dataset, accepted-extra-registered-eulerian-field
+  M13 missing Lagrangian vector silently skipped               VIOLATION  accepted-file-without-lagrangian-vector-dataset, accepted-extra-registered-lagrangian-field
+  M14 missing grid silently skipped                            VIOLATION  accepted-renamed-grid, accepted-extra-registered-grid, accepted-file-without-lagrangian-grid-dataset (+F4 accept key)
+  M15 save: Eulerian scalar .astype(float32)                   VIOLATION  eulerian-scalar-dataset-content, eulerian-scalar-not-restored
+  M16 save: Lagrangian scalar .astype(float32)                 VIOLATION  lagrangian-scalar-dataset-content, lagrangian-scalar-not-restored
+  M17 save reverses the Eulerian source array in place         VIOLATION  save-modified-source
+  M18 save transposes square (N == dim) vector in place        VIOLATION  save-modified-source
+  M19 save: leading singleton axis dropped (Eulerian scalar)   VIOLATION  eulerian-scalar-dataset-shape, eulerian-scalar-not-restored
+  M20 leading axis dropped for vector comps in save AND load   VIOLATION  eulerian-vector-component-dataset-shape (layout monitor only)
+  M21 Lagrangian vector moveaxis dropped in save AND load      VIOLATION  lagrangian-vector-dataset-shape, -content (N == dim)
+  M22 Eulerian vector comps stored reversed, save AND load     VIOLATION  eulerian-vector-component-dataset-content
+  M23 Lagrangian scalar not loaded                             VIOLATION  lagrangian-scalar-not-restored
+  M24 CosseratRodIO.save does not refresh element positions    VIOLATION  rod-grid!=element-midpoints
+  M25 load rebinds the Eulerian scalar instead of writing it   VIOLATION  eulerian-scalar-not-restored
+  M26 F3 re-introduced on the fixed tree                       VIOLATION  lagrangian-vector-N==dim-stored-as-scalar
+  M27 F4 re-introduced on the fixed tree                       VIOLATION  grid-without-fields-not-restored, missing-grid-without-fields-accepted
+  M28 origin attribute written as zeros                        VIOLATION  attr-origin-wrong, load-raises
+
+Things seen in SophT that are outside the property and therefore NOT asserted: a file name without the
+substring ".h5" is overwritten by the XDMF text (str.replace(".h5", ...) returns the same name); with an
+Eulerian grid defined but no Eulerian field registered, load does not compare origin/dx/grid_size;
+registering the same grid name twice resets that grid's field list.
 """
 import os
 import shutil
